@@ -21,10 +21,10 @@ Assertions
   strobe_happens    a completed write to address 1/2 produces its strobe within 4 cycles
   write_data        at the sfr strobe the write_signal carries the transmitted value
 
-Finding on the unchanged tree (scenario predicate kf_short_cs_gap): SPICommandInterface overlooks a CS de-assertion
-of 1-3 cycles that coincides with one of its own state changes (cycle in which the command completes, PROCESSING,
-LATCH_OUTPUT, cycle in which the word completes); the next transaction is then taken as the continuation of the
-aborted one, or ignored in STALL.  With every CS gap >= CS_GAP (4) cycles the property holds on the unchanged tree.
+Fixed finding (findings/C51_cs_abort.patch): SPICommandInterface used to overlook a CS de-assertion of 1-3 cycles that
+coincided with one of its own state changes (cycle in which the command completes, PROCESSING, LATCH_OUTPUT, cycle in
+which the word completes); the next transaction was then taken as the continuation of the aborted one, or ignored in
+STALL.  CS gaps of any length (>= 1 cycle) are now part of the checked environment, without a scenario exclusion.
 """
 from amaranth import *
 from ..harness import Harness
@@ -34,21 +34,18 @@ from ..lib.periph import VS, in_vsync
 PROP = "C51"
 
 # FINDINGS
-#   OPEN (known_findings.json, scenario short_cs_gap; assertions read_value, reg_value, strobe_only_when, strobe_happens):
-#     CS de-asserted for 1-3 cycles coinciding with a state change of SPICommandInterface (the cycle the command completes,
-#     PROCESSING, LATCH_OUTPUT, or the cycle the data word completes) and re-asserted before the FSM looks at CS again:
-#     the de-assertion is missed.  History A: write command to address 1, CS low for 3 cycles right after the last command
-#     bit, next transaction's first 3 bits are shifted in as the data of the aborted command -> spurious write strobe /
-#     register written (strobe_only_when, reg_value, read_value).  History B: CS low for 1 cycle in the cycle after the
-#     last data bit (m.next='STALL' overrides 'IDLE') -> the whole following transaction is ignored in STALL
-#     (strobe_happens, read_value).  With every CS gap >= CS_GAP (4) cycles all assertions hold (viol AND NOT kf unsat).
-#   Proposed fix (not applied): give the `~spi.cs` abort check priority in RECEIVE_COMMAND and SHIFT_DATA (place it last)
-#     and add it to PROCESSING and LATCH_OUTPUT; tests/test_spi.py passes with it and all five assertions then hold
-#     without the scenario exclusion.
+#   FIXED (findings/C51_cs_abort.patch; formerly scenario short_cs_gap on read_value, reg_value, strobe_only_when,
+#     strobe_happens): CS de-asserted for 1-3 cycles coinciding with a state change of SPICommandInterface (the cycle the
+#     command completes, PROCESSING, LATCH_OUTPUT, or the cycle the data word completes) and re-asserted before the FSM
+#     looked at CS again: the de-assertion was missed.  History A: write command to address 1, CS low for 3 cycles right
+#     after the last command bit, next transaction's first 3 bits shifted in as the data of the aborted command ->
+#     spurious write strobe / register written.  History B: CS low for 1 cycle in the cycle after the last data bit
+#     (m.next='STALL' overrode 'IDLE') -> the whole following transaction ignored in STALL.
+#   Fix: the `~spi.cs` abort check has priority in RECEIVE_COMMAND and SHIFT_DATA (placed last) and is also made in
+#     PROCESSING and LATCH_OUTPUT.  All five assertions hold for every CS gap length; no scenario predicate is left.
 ENCODED = ["luna/gateware/interface/spi.py: SPICommandInterface.elaborate (command/word shifters, FSM)",
            "luna/gateware/interface/spi.py: SPIRegisterInterface (add_register/add_sfr/_elaborate_register, read mux)"]
 LOW_MIN = 5
-CS_GAP = 4
 ASSUMPTIONS = [
     "SPI host contract: SCK is low and has been low in the previous cycle when CS is asserted (mode 0 idle level, "
     "one cycle of setup)",
@@ -90,7 +87,6 @@ class SpiRegHarness(Harness):
         self.a_rate = self.assume("sck_rate")
         self.a_sfr = self.assume("sfr_stable")
         self.a_rst = self.assume("cs_inactive_at_reset")
-        self.k_gap = self.kf("short_cs_gap")
         names = ("read_value", "reg_value", "strobe_only_when", "strobe_happens", "write_data")
         self.v = {n: self.viol(n) for n in names}
         cov = ("read_reg", "read_sfr", "read_default", "read_autoneg", "write_reg", "write_sfr", "write_other",
@@ -130,21 +126,6 @@ class SpiRegHarness(Harness):
             self.a_rate.eq(~(cs & p_cs & sck & ~p_sck) | (low_for == LOW_MIN)),
             self.a_sfr.eq(~(cs & p_cs) | (self.sfr_read == p_sfr)),
         ]
-
-        # --- scenario predicate of the recorded finding: CS was inactive for fewer than CS_GAP cycles between two
-        # transactions at some point of this run (the FSM misses a de-assertion that coincides with one of its own
-        # state changes and lasts 1-3 cycles)
-        gap = Signal(range(CS_GAP + 1), name="g_gap", init=CS_GAP)
-        with m.If(cs):
-            sync += gap.eq(0)
-        with m.Elif(gap != CS_GAP):
-            sync += gap.eq(gap + 1)
-        short_seen = Signal(name="g_short_seen")
-        short_now = Signal(name="g_short_now")
-        m.d.comb += short_now.eq(cs & ~p_cs & (gap != CS_GAP))
-        with m.If(short_now):
-            sync += short_seen.eq(1)
-        m.d.comb += self.k_gap.eq(short_seen | short_now)
 
         # --- wire monitor
         n = Signal(range(TOTAL + 2), name="g_nbits")      # falling edges seen in this transaction (saturating)
